@@ -10,8 +10,8 @@ V="$(cd "$(dirname "$0")/../../.." && pwd)"
 cd "$V/sim" || exit 2
 pids=()
 for w in c14prim c01 c02 c07 c08 c15 c16; do
-  ( go build -tags verif -overlay "$SCR/overlay.json" -o "$SCR/w_${w}_default" "./props/$w" && \
-    go build -tags "verif purego" -overlay "$SCR/overlay.json" -o "$SCR/w_${w}_purego" "./props/$w" ) &
+  ( go build ${VERIF_MODFLAG:-} -tags verif -overlay "$SCR/overlay.json" -o "$SCR/w_${w}_default" "./props/$w" && \
+    go build ${VERIF_MODFLAG:-} -tags "verif purego" -overlay "$SCR/overlay.json" -o "$SCR/w_${w}_purego" "./props/$w" ) &
   pids+=($!)
 done
 rc=0
